@@ -125,7 +125,7 @@ func (e *Engine) verifyFunc(fn *ssa.Function, fc *FuncContract, safety bool, dev
 			o.Cover = true
 		}
 	}
-	if fc != nil && fc.Trusted {
+	if fc != nil && fc.Trusted && !(safety && len(fc.TrustedFor) > 0 && !hasProp(fc.TrustedFor, "C20")) {
 		return ft
 	}
 	ft.inlineStack = []*ssa.Function{fn}
@@ -289,7 +289,15 @@ func (fr *frame) libCall(instr *ssa.Call, callee *ssa.Function, name string, sig
 				}
 				fn := fmt.Sprintf("ext$path.Join$%d", n)
 				u.declFun(fn, fmt.Sprintf("(declare-fun %s (%s) Str)", fn, strings.Join(sorts, " ")))
-				fr.setResult(instr, Val{T: Term{ft.define("joined", SStr, sx(fn, as...)), SStr}})
+				jt := ft.define("joined", SStr, sx(fn, as...))
+				fr.setResult(instr, Val{T: Term{jt, SStr}})
+				if ft.e.curProp == "C17" && fr.taintDecls() {
+					var pre []string
+					for _, a := range as {
+						pre = append(pre, sx("spec$secretFree", a))
+					}
+					ft.assume("true", implies(and(pre...), sx("spec$secretFree", jt)))
+				}
 				ft.e.usedExternals[name] = "uf-of-elements"
 				return reach, true
 			}
@@ -366,18 +374,91 @@ func (fr *frame) libCall(instr *ssa.Call, callee *ssa.Function, name string, sig
 			return reach, false
 		}
 		fr.escapeArgs(st, args)
+		cl := fr.operandsClean(instr, args, st)
 		r := ft.fresh("sprintf", SStr)
 		ft.assume("true", sx(">", sx("strlen", r), "0"))
+		if cl != "" {
+			ft.assume("true", eq(sx("spec$secretFree", r), cl))
+		}
 		fr.setResult(instr, Val{T: Term{r, SStr}})
 		ft.e.usedExternals[name] = "fresh-result, non-empty for a format with literal text"
+		return reach, true
+	case "(error).Error":
+		if len(args) != 1 || !fr.taintDecls() {
+			return reach, false
+		}
+		recv := ft.termOf(args[0], types.Universe.Lookup("error").Type())
+		u.declFun("spec$errText", "(declare-fun spec$errText (Ref) Str)")
+		r := ft.define("errtext", SStr, sx("spec$errText", recv.S))
+		ft.assume("true", eq(sx("spec$secretFree", r), sx("spec$cleanAny", recv.S)))
+		fr.setResult(instr, Val{T: Term{r, SStr}})
 		return reach, true
 	case "errors.New", "fmt.Errorf":
 		r := ft.newRef(st, "err", reach)
 		ft.assume("true", eq(sx("dyntype", r), fmt.Sprint(u.typeID(types.Universe.Lookup("error").Type())*1000+7)))
 		fr.setResult(instr, Val{T: Term{r, SRef}})
+		// taint discipline (C17): the message is secret free iff every operand is
+		if cl := fr.operandsClean(instr, args, st); cl != "" {
+			fr.taintDecls()
+			ft.assume("true", eq(sx("spec$cleanAny", r), cl))
+		}
 		return reach, true
 	}
 	return reach, false
+}
+
+// taintDecls declares the taint predicates of /verif/specs/taint.vc when the
+// contracts use them (C17).
+func (fr *frame) taintDecls() bool {
+	e := fr.ft.e
+	if e.cs.Specs["secretFree"] == nil || e.cs.Specs["cleanAny"] == nil {
+		return false
+	}
+	u := e.u
+	u.declFun("spec$secretFree", "(declare-fun spec$secretFree (Str) Bool)")
+	u.declFun("spec$cleanAny", "(declare-fun spec$cleanAny (Ref) Bool)")
+	return true
+}
+
+// operandsClean: for errors.New(msg), fmt.Errorf(format, args...) and
+// fmt.Sprintf(format, args...): the SMT condition "every string/error operand
+// is secret free" ("" if it cannot be expressed: unknown operand count).
+func (fr *frame) operandsClean(instr *ssa.Call, args []Val, st *State) string {
+	ft := fr.ft
+	u := ft.e.u
+	if instr == nil || !fr.taintDecls() {
+		return ""
+	}
+	if len(instr.Call.Args) == 0 {
+		return ""
+	}
+	first := ft.termOf(args[0], instr.Call.Args[0].Type())
+	conds := []string{sx("spec$secretFree", first.S)}
+	if len(args) == 1 {
+		return and(conds...)
+	}
+	if len(args) != 2 {
+		return ""
+	}
+	va := ft.termOf(args[1], instr.Call.Args[1].Type())
+	n, ok := ft.staticLen[va.S]
+	if !ok {
+		// nil variadic slice: no operands
+		if va.S == "nilslice" {
+			return and(conds...)
+		}
+		return ""
+	}
+	vst, isSl := instr.Call.Args[1].Type().Underlying().(*types.Slice)
+	if !isSl {
+		return ""
+	}
+	h, _ := u.elemHeap(vst.Elem())
+	arr := sel(ft.heapTerm(st, h), sx("sbase", va.S))
+	for i := 0; i < n; i++ {
+		conds = append(conds, sx("spec$cleanAny", sel(arr, sx("ix", va.S, fmt.Sprint(i)))))
+	}
+	return and(conds...)
 }
 
 // bindCapturedClosures: when a closure is verified on its own, a captured
